@@ -204,7 +204,12 @@ genuine defect (BINV formed (1-p)^n from the rounded 1-p), repaired by fix
 7339692 and added to the grid; (ii) seed 6 / xoshiro, C10: the known
 float-tree assertion reached through a random stream instead of a lattice
 word — the finding's signature now keys on the assertion text instead of the
-trigger class. No other run printed a VIOLATION.
+trigger class. No other run printed a VIOLATION. A second robustness run after
+rounds 3 (seeds 21–23 × three generators × 15 checks = 135 runs with the atom
+test, the exact enumerations and the new cells) raised two alarms: C02 pcg64/21
+on Binomial(3.4e15, 3.2e-14) — the BTPE precision defect then repaired by
+1aff986 — and C07 xoshiro/21, a false alarm of the InverseGaussian branch-flip
+detector (corrected, §0).
 
 {appe}
 ## Status / next steps (for a later session)
